@@ -880,7 +880,165 @@ def rule_i(ctx: Context, R: Reporter):
     R.analysed["C14.i:functions re-binding the clusterer"] = n
 
 
+def rule_j(ctx: Context, R: Reporter):
+    """C14.j  numpy contract in the mode statistics (and the fit behind them): a matrix rebuilt from its
+    eigendecomposition uses the eigenvectors as columns (A = V diag(w) V^T).  V^T diag(w) V is still symmetric positive
+    definite, so nothing raises, but its principal axes are rotated away from the cluster the mode was fitted to."""
+    from ..util import eigh_reconstruction_errors
+
+    n = 0
+    for fi in ctx.prog.functions.values():
+        if fi.module.relpath.split("/")[-1] not in ("modes.py", "student.py"):
+            continue
+        n += 1
+        for (node, why) in eigh_reconstruction_errors(fi.node):
+            R.check("C14.j", "a scale matrix rebuilt from its eigendecomposition is V diag(w) V^T", False, fi, node,
+                    msg=f"{fi.short}: `{unparse(node)[:70]}`: {why}: the rebuilt scale matrix is rotated, so the mode no longer describes the scatter of the cluster it was fitted from",
+                    key=f"eigh-rows:{fi.short}")
+    R.check("C14.j", "eigendecomposition reconstructions scanned", True, None, None, key="eigh-scan")
+    R.floor("C14.j", "functions of the mode statistics / fit scanned", n, 6)
+
+
+def rule_k(ctx: Context, R: Reporter):
+    """C14.k  the two users of the shared clusterer agree on when there is a single mode: the condition under which the
+    training step fits the one global mode (ModeStatistics.from_global, K = 1) is the condition under which the
+    resampling step hands out the label 0 to every walker.  Decided as the equivalence of two boolean functions over
+    the atoms of the branch conditions (truth table); an atom that only one side consults makes them differ, e.g.
+    'the pool is too small now' on one side and 'the clusterer was ever fitted' on the other."""
+    import itertools
+
+    from ..util import bool_skeleton, path_facts
+
+    tr = [f for f in ctx.prog.functions.values() if f.cls is not None and f.cls.name == "Trainer" and f.name == "run"]
+    rs = [f for f in ctx.prog.functions.values() if f.cls is not None and f.cls.name == "Resampler" and f.name == "run"]
+    if len(tr) != 1 or len(rs) != 1:
+        raise AnalysisError("C14.k: training / resampling step not identified")
+    tr, rs = tr[0], rs[0]
+    atoms: List[ast.expr] = []
+
+    def conj(facts):
+        fns = [(bool_skeleton(e, atoms), pol) for (e, pol) in facts]
+        return lambda val, fns=fns: all(f(val) == pol for (f, pol) in fns)
+
+    # training step: paths to a from_global call, excluding the placeholder returned before any particle exists
+    tflow = flow_of(tr.node)
+    t_terms = []
+    for nd in tflow.cfg.stmt_nodes():
+        for c in calls_in_node(nd):
+            if isinstance(c.func, ast.Attribute) and c.func.attr == "from_global" and nd.kind == "stmt" and not isinstance(nd.stmt, ast.Return):
+                t_terms.append(conj(path_facts(tr.node, nd, inline_bools=True)))
+    # the same conditions seen from the particle-fitting side (from_particles) -- needed to know the reachable region
+    t_part = []
+    for nd in tflow.cfg.stmt_nodes():
+        for c in calls_in_node(nd):
+            if isinstance(c.func, ast.Attribute) and c.func.attr == "from_particles" and nd.kind == "stmt":
+                t_part.append(conj(path_facts(tr.node, nd, inline_bools=True)))
+    if not t_terms or not t_part:
+        raise AnalysisError("C14.k: from_global / from_particles sites of the training step not found")
+    # resampling step: the stored assignments are zeros ...
+    rflow = flow_of(rs.node)
+    r_zero, r_pred = [], []
+    for a in ctx.state.in_func(rs, include_nested=False):
+        if a.mode != "write" or a.key != "assignments" or a.value is None:
+            continue
+        at = rflow.node_containing(a.call)
+        v = a.value
+        base = path_facts(rs.node, at, inline_bools=True) if at is not None else []
+        cands = []
+        if isinstance(v, ast.Name) and at is not None:
+            for d in rflow.reaching(at, v.id):
+                if d.value is not None and d.node is not None:
+                    cands.append((d.value, path_facts(rs.node, d.node, inline_bools=True)))
+        else:
+            cands.append((v, base))
+        for (e, facts) in cands:
+            if isinstance(e, ast.IfExp):
+                parts = [(e.body, facts + [(e.test, True)]), (e.orelse, facts + [(e.test, False)])]
+            else:
+                parts = [(e, facts)]
+            for (x, fx) in parts:
+                txt = norm_text(x)
+                if "predict(" in txt:
+                    r_pred.append(conj(fx))
+                elif "zeros(" in txt and any("predict(" in norm_text(y) for (y, _) in parts + [(z, None) for (z, _) in cands]):
+                    r_zero.append(conj(fx))
+    if not r_pred or not r_zero:
+        raise AnalysisError("C14.k: the label assignment of the resampling step (predict / zeros) not found")
+    if len(atoms) > 10:
+        raise AnalysisError("C14.k: too many atoms in the branch conditions")
+    bad = None
+    for val in itertools.product([False, True], repeat=len(atoms)):
+        tg, tp = any(t(val) for t in t_terms), any(t(val) for t in t_part)
+        rz, rp = any(t(val) for t in r_zero), any(t(val) for t in r_pred)
+        if not (tg or tp) or not (rz or rp):
+            continue  # not a combination in which both steps reach their fitting / labelling code
+        if (tg and rp and not rz) or (tp and rz and not rp and not tg):
+            bad = {unparse(a)[:40]: v for a, v in zip(atoms, val)}
+            break
+    R.check("C14.k", "single global mode in the training step <=> all-zero labels in the resampling step", bad is None, tr, tr.node,
+            msg=f"Trainer.run / Resampler.run: under {bad} the training step fits " + ("the single global mode (K = 1) while the resampling step labels walkers with clusterer.predict"
+                if bad and any(True for _ in [0]) else "") + ": labels can refer to modes that were not trained (or to an older mixture of the shared clusterer)", key="single-mode-agreement")
+    R.analysed["C14.k:atoms"] = [unparse(a)[:40] for a in atoms]
+
+
+def rule_l(ctx: Context, R: Reporter):
+    """C14.l  wiring of the shared clusterer: every step that is constructed with `clustering=<expr>` and the shared
+    clusterer gets a clusterer object whenever its own clustering flag can be true -- the flag passed to each user
+    implies the condition under which the clusterer was built (truth table over the atoms), and all users get the same
+    flag.  Otherwise a step told to cluster calls predict()/fit() on None, or two steps disagree on whether labels
+    are meaningful."""
+    import itertools
+
+    from ..dataflow import Resolver as _Res
+    from ..util import bool_skeleton, path_facts
+
+    cl, wiring, users = shared_clusterer(ctx)
+    flow = flow_of(wiring.node)
+    rs = _Res(wiring.node)
+    # construction site(s) of the clusterer and their path conditions
+    build_terms = []
+    atoms: List[ast.expr] = []
+    for nd in flow.cfg.stmt_nodes():
+        for c in calls_in_node(nd):
+            if cl in [t for t in ctx.res.call_targets(wiring, c) if isinstance(t, ClassInfo)]:
+                facts = path_facts(wiring.node, nd, inline_bools=True)
+                fns = [(bool_skeleton(e, atoms), pol) for (e, pol) in facts]
+                build_terms.append(lambda val, fns=fns: all(f(val) == pol for (f, pol) in fns))
+    if not build_terms:
+        raise AnalysisError("C14.l: construction of the shared clusterer not found")
+    flags = []
+    for (call, tg) in ctx.cg.sites.get(wiring.qualname, []):
+        ucls = [t for t in tg if isinstance(t, ClassInfo) and any(t is u for (u, _) in users)]
+        if not ucls:
+            continue
+        kw = next((k.value for k in call.keywords if k.arg == "clustering"), None)
+        if kw is None:
+            continue
+        at = flow.node_containing(call)
+        e = rs.resolve(kw, at) if at is not None else kw
+        flags.append((ucls[0], call, e, bool_skeleton(e, atoms)))
+    R.floor("C14.l", "steps constructed with the shared clusterer and a clustering flag", len(flags), 2)
+    if len(atoms) > 10:
+        raise AnalysisError("C14.l: too many atoms")
+    for (u, call, e, fn) in flags:
+        bad = None
+        for val in itertools.product([False, True], repeat=len(atoms)):
+            if fn(val) and not any(b(val) for b in build_terms):
+                bad = {unparse(a)[:40]: v for a, v in zip(atoms, val)}
+                break
+        R.check("C14.l", f"{u.name} is told to cluster only when the shared clusterer exists", bad is None, wiring, call,
+                msg=f"{wiring.short}: {u.name} is constructed with clustering=`{unparse(e)[:50]}`, which can be true while no clusterer was built (under {bad}): the step then calls "
+                    f"predict()/fit() on None in the first annealing iteration -- a configuration the constructor accepted does not run", key=f"clusterer-wiring:{u.name}")
+    same = len({norm_text(e) for (_, _, e, _) in flags}) <= 1
+    R.check("C14.l", "all users of the shared clusterer get the same clustering flag", same, wiring, flags[0][1] if flags else wiring.node,
+            msg=f"{wiring.short}: the users of the shared clusterer are constructed with different clustering flags {[unparse(e)[:40] for (_, _, e, _) in flags]}: one step labels walkers with a "
+                f"mixture the other did not train", key="clusterer-wiring:same-flag")
+
+
 def run(ctx: Context, R: Reporter):
+    R.guard(rule_l, ctx, R)
+    R.guard(rule_j, ctx, R)
+    R.guard(rule_k, ctx, R)
     R.guard(rule_i, ctx, R)
     R.guard(rule_h, ctx, R)
     R.guard(rule_a, ctx, R)
@@ -898,7 +1056,18 @@ def variants():
     tr = "tempest/steps/train.py"
     md = "tempest/modes.py"
     core = "tempest/core.py"
+    from ..variants import insert_before as _ib2
+
+    eig_fix = "w_, V_ = np.linalg.eigh(self.covariances)\nself.covariances = np.einsum('{spec}', V_, np.maximum(w_, 1e-300), V_)"
     return [
+        Variant("l-no-clusterer-for-single-cluster-cap", "bad", replace_expr(core, "SamplerCore.__init__", "config.clustering", "config.clustering and config.n_max_clusters != 1", nth=0), ["C14.l"], quick=True),
+        Variant("k-resampler-labels-if-ever-fitted", "bad", replace_expr("tempest/steps/resample.py", "Resampler.run", "self.clusterer.predict(u_resampled) if self.clustering else np.zeros(self.n_particles, dtype=int)",
+                                                                        "self.clusterer.predict(u_resampled) if self.clustering and self.clusterer.n_clusters_ > 0 else np.zeros(self.n_particles, dtype=int)"), ["C14.k"], quick=True),
+        Variant("k-trainer-global-mode-for-small-pools", "bad", replace_expr(tr, "Trainer.run", "self.clustering and refit", "self.clustering and refit and len(trim_idx) > 8"), ["C14.k"]),
+        Variant("k-benign-resampler-branches-flipped", "benign", replace_expr("tempest/steps/resample.py", "Resampler.run", "self.clusterer.predict(u_resampled) if self.clustering else np.zeros(self.n_particles, dtype=int)",
+                                                                             "np.zeros(self.n_particles, dtype=int) if not self.clustering else self.clusterer.predict(u_resampled)")),
+        Variant("j-eigen-floor-rows", "bad", _ib2(md, "ModeStatistics.__init__", "self.inv_covariances = np.linalg.inv(self.covariances)", eig_fix.format(spec="kji,kj,kjl->kil")), ["C14.j"], quick=True),
+        Variant("j-benign-eigen-floor-columns", "benign", _ib2(md, "ModeStatistics.__init__", "self.inv_covariances = np.linalg.inv(self.covariances)", eig_fix.format(spec="kij,kj,klj->kil"))),
         Variant("f-training-labels", "bad", replace_stmt(tr, "Trainer.run", "labels = self.clusterer.predict(u)", "labels = self.clusterer.labels_"), ["C14.f"], quick=True),
         Variant("f-predict-other-rows", "bad", replace_stmt(tr, "Trainer.run", "labels = self.clusterer.predict(u)", "labels = self.clusterer.predict(self.state.get_history('u', flat=True))[trim_idx]"), ["C14.f"]),
         Variant("a-drop-never-fitted", "bad", replace_expr(tr, "Trainer.run", "iter_val % self.cluster_every == 0 or iter_val == 0 or never_fitted", "iter_val % self.cluster_every == 0 or iter_val == 0"), ["C14.a"], quick=True),
